@@ -204,4 +204,18 @@ CHECKS = {
             dict(name="concurrent", run="^TestConcurrent$", thorough=150, shards=1, race=True, tiers=("thorough",), env={"VERIF_LEG_SUFFIX": "-race"}),
         ],
     ),
+    "C12": dict(
+        pkg="c12", level="exploration",
+        rule=("each case = a generated logical tree (<=6 directories up to depth 4, files with sizes from {0,1,2,17,100,511,512,513,4000} and, 10% of files, the 150 KiB thresholds {150Ki-1,150Ki,150Ki+1}; 1 in 10 cases one file of 4 MiB+1) written as a tar archive with "
+              "entries in a random order (children before parents allowed), a random subset of directories left implicit, every name spelled through a random equivalent (x, ./x, /x, a//b, a/./b, trailing slash on directories), random permission bits; destination = default, explicit mem.FS, "
+              "a wrapper exposing only OpenFile+Chmod+Mkdir, or os.FS on tmpfs, each behind a gate whose blocked destination calls (OpenFile, Mkdir, Chmod, MkdirAll, Write) are released one at a time in a rapid-drawn order (schedule of the background writer goroutines). After Done(): UnarchiveErr()==nil and the "
+              "snapshot of the tar FS and of the destination equal the model (files: bytes+perm, explicit dirs: perm, ancestors: kind, nothing else). many leg: 85..120 files so that more than the 81 small buffers are requested while writes are gated. escape leg: one entry named ../x, a/../../x, .. etc. at a random position: "
+              "UnarchiveErr()!=nil, nothing derived from that name is created, the os root's sentinel sibling is untouched. non-trivial = a child before its explicit parent, a non-clean spelling, or a size >= 150 KiB-1"),
+        assumptions=["//go:debug tarinsecurepath=1 so that escaping names reach hackpadfs", "gate quiescence is detected by a short settle (affects which schedule is explored, never the verdict)", "entry names are distinct after normalisation"],
+        legs=[
+            dict(name="tree", run="^TestTree$", quick=150, thorough=1200, shards=8, timeout_quick=400),
+            dict(name="many", run="^TestManyEntries$", quick=6, thorough=60, shards=4, timeout_quick=400),
+            dict(name="escape", run="^TestEscape$", quick=80, thorough=800, shards=4),
+        ],
+    ),
 }
